@@ -41,6 +41,26 @@ def op (name : String) (j : Json) : Except String (Option Json) := do
           Spec.C08.chainLt a.chainID b.chainID && !Spec.C08.isHydrogen a && !Spec.C08.isHydrogen b &&
           decide (Spec.C08.sqDist a b = 9)))).length),
       ("two_chains", boolJ (twoChains s).isSome)]))
+  | "fnat_history" =>
+    -- the definition's value for every call of the sequence, each at its own cutoff
+    let ref ← jAtoms j "ref_atoms"; let dec ← jAtoms j "dec_atoms"
+    let calls ← jArr j "calls"
+    let answers ← calls.toList.mapM (fun (cj : Json) => do
+      let route ← jStr cj "route"
+      if route == "clashes" then
+        pure (Json.mkObj [("value", natJ (Spec.C08.clashes dec)), ("n_ref", natJ 0)])
+      else
+        let c ← if (jStr cj "cutoff") matches .ok "default" then pure (5 : Rat) else jRat cj "cutoff"
+        let v : Json := match Spec.C08.fnat c ref dec with
+          | some q => ratJ q
+          | none => .str "UNDEFINED"
+        pure (Json.mkObj [("value", v), ("n_ref", natJ (Spec.C08.contacts c ref).length)]))
+    let tr := twoChains ref
+    let td := twoChains dec
+    pure (some (Json.mkObj [
+      ("values", Json.arr answers.toArray),
+      ("ref_two_chains", boolJ tr.isSome), ("same_chains", boolJ (tr.isSome && tr == td)),
+      ("names_consistent", boolJ (namesConsistentB (ref ++ dec)))]))
   | "superpose" =>
     -- the property evaluated on what was observed: the tables before and after the call, the files that appeared, and a
     -- candidate motion (R, t) fitted by the harness
